@@ -14,7 +14,7 @@ def run(rep, tier, seed):
         rep.violation({'kind': 'proof-broken', 'log': pr['log'][-3000:], 'forbidden': pr['forbidden']}, suffix='no-failing-input-found')
     nh, nops = (32, 90) if tier == 'quick' else (1200, 300)
     import histgen
-    k2check.run_k2(rep, 'C07', tier, seed, 'c07', nh, nops, extra_histories=[histgen.huge_value_history()])
+    k2check.run_k2(rep, 'C07', tier, seed, 'c07', nh, nops, extra_histories=[histgen.huge_value_history()] + [histgen.corpus_histories()[i] for i in (3, 7)])
     rep.cov['rule'] = RULES['C07'] + '; distinct_nontrivial = histories with >= 1 flush and >= 1 non-trivial compaction'
 
 def replay(rep, path):
